@@ -4,7 +4,8 @@ import Driver.Util
 /-! Engine `layout` (C05/C15): executes `encode` / `parseMsg` of `N2k/Model/Layout.lean` on the layouts GENERATED from
 the C++ source on this run (`N2k/Gen/Layouts.lean`).
 
-* `set <id> c0 c1 …`      one integer code per field of the pair (order of `Pair.names`) → payload hex; a byte with
+* `set <id> c0 c1 …`      one integer per field of the pair (order of `Pair.names`): the code of a scaled/text field,
+                          the value of an integer parameter (`Pair.intCode` turns it into its code) → payload hex; a byte with
                           an untranslated bit prints as `??`; `+` is appended when only a prefix of the payload is
                           translated; `untranslated` when the setter is outside the fragment
 * `parse <id> <pgn> hex`  → `refuse` | the code of every field the parser produces (`?` for an untranslated output)
@@ -41,7 +42,7 @@ def chunks8 {α : Type} : Nat → List α → List (List α)
 def setOut (P : Pair) (codes : List Nat) : String :=
   if !P.setterOK then "untranslated" else
   let S := P.setterBits
-  let bits := encode S (fun o => codes.getD o 0)
+  let bits := encode S (fun o => P.intCode o (codes.getD o 0))
   let n := (S.length + 7) / 8
   let body := String.join ((chunks8 n S).zip (chunks8 n bits) |>.map fun sb => byteOut sb.1 sb.2)
   (if body.isEmpty then "-" else body) ++ (if P.setterPrefixOnly then "+" else "")
